@@ -427,6 +427,14 @@ func genC15(r *Runner) {
 					t := good()
 					t.tsaLen, t.validator, t.vec = n, "vec", v
 					jobs = append(jobs, base(f, true, "ec256-0", signature.SigningSchemeX509, t))
+					if m == n {
+						// the same through a request copied by WithContext (once, twice), and through one used as built
+						for _, d := range []string{"with-context", "with-context-twice", "as-built"} {
+							j := base(f, true, "ec256-0", signature.SigningSchemeX509, t)
+							j.derive = d
+							jobs = append(jobs, j)
+						}
+					}
 				}
 			}
 			t := good()
